@@ -133,7 +133,9 @@ func checkC03(c *core.Ctx, l *core.Ledger) {
 	checkStreamReaderFullRead(c, l)
 	checkNoRawRead(c, l, "FULL-READ", []string{"protocol/binary"})
 	checkEvalComplete(c, l, "EVAL-COMPLETE")
+	errSide = "read"
 	checkErrKeep(c, l, "ERR-KEEP", []string{"protocol/binary", "wire", "internal/frame", "protocol"})
+	errSide = ""
 }
 
 func fixedWidthCovered(c *core.Ctx) func(k *types.Const) bool {
